@@ -264,6 +264,9 @@ func writeEvidence(run *checkRun, verif string, discharged int, known, failed []
 		"arithmetic":             "mathematical integers with the Go type's range as typing invariant; every + - * and narrowing conversion in a function under contract carries an overflow obligation unless listed under overflow_unchecked",
 		"overflow_unchecked":     nooverflow,
 	}
+	if run.vacuity != nil {
+		ev.Coverage["seeded_change_corpus"] = run.vacuity
+	}
 	ev.Assumptions = append(ev.Assumptions, trusted...)
 	ev.Assumptions = append(ev.Assumptions, propertyAssumptions(run)...)
 	os.MkdirAll(filepath.Join(verif, "evidence"), 0o755)
